@@ -40,7 +40,7 @@ for p in props:
             "evidence_file": f"/verif/evidence/{p}.json",
             "replay_cmd_template": f"./wv check {p} --replay {{path}}",
             "engine": "coq+wvh",
-            "level_claimed": {"category": "proof", "text": c["text"], "design_ref": c["design_ref"]},
+            "level_claimed": {"category": "proof", "text": c["text"], "design_ref": c["design_ref"] + "; as built: DESIGN.md §10.1"},
             "level_note": c["note"],
             "technique": c["technique"],
         })
